@@ -4,6 +4,7 @@ import (
 	"context"
 	"fmt"
 	"os"
+	"strings"
 	"sync"
 	"time"
 
@@ -22,16 +23,85 @@ import (
 
 // measurement of one real run; all times in milliseconds since the loop goroutine was started.
 type notifRec struct {
-	at float64
+	at   float64
+	k, j int
 }
+
+// tokRec: one event of the run, in the order in which the events happened (appended under one mutex;
+// a notification is appended and sent while the mutex is held, so its place in the order is the place
+// of the channel send).
+type tokRec struct {
+	kind byte // 'P' production start, 'e' production end, 'n' notification, 'p' probe
+	k, j int
+	at   float64
+}
+
 type measurement struct {
 	starts, ends []float64 // ends[i] < 0: production i was still in flight when the run was cancelled
+	causes       []string  // lazy mode: `mode` of the i-th "published block" debug line of produceBlock
 	notifs       []notifRec
+	toks         []tokRec
+	late         float64 // largest lateness (ms) of a scripted notification / probe / production end
 	stopMs       float64 // when ctx was cancelled
 	noise        float64 // largest overshoot (ms) of a 5 ms sleep observed by a canary goroutine during the run
 	exited       bool
 	panicked     string
 	loopErr      string
+}
+
+// causeOf: what started production k — L lazy-timer case, B block-timer case (lazy loop), N normal loop.
+func (ms *measurement) causeOf(lazy bool, k int) string {
+	if !lazy {
+		return "N"
+	}
+	if k < len(ms.causes) {
+		switch ms.causes[k] {
+		case "lazy_timer":
+			return "L"
+		case "block_timer":
+			return "B"
+		}
+	}
+	return "?"
+}
+
+// outcome: the order of the first `upto` events, in the vocabulary of Drv/C17.lean.
+func (ms *measurement) outcome(lazy bool, upto int) string {
+	var out []string
+	for i, t := range ms.toks {
+		if i >= upto || t.at > ms.stopMs {
+			break
+		}
+		switch t.kind {
+		case 'P':
+			out = append(out, fmt.Sprintf("%s%d", ms.causeOf(lazy, t.k), t.k))
+		case 'e':
+			out = append(out, fmt.Sprintf("e%d", t.k))
+		default:
+			out = append(out, fmt.Sprintf("%c%d.%d", t.kind, t.k, t.j))
+		}
+	}
+	if len(out) == 0 {
+		return "-"
+	}
+	return strings.Join(out, ",")
+}
+
+// capLogger hands the key/value debug lines of the loop to the harness (produceBlock says which
+// select case it was called from: m.logger.Debug("Successfully published block", "mode", mode)).
+type capLogger struct {
+	logging.EventLogger
+	onMode func(mode string)
+}
+
+func (l *capLogger) Debug(args ...interface{}) {
+	for i := 1; i+1 < len(args); i += 2 {
+		if k, ok := args[i].(string); ok && k == "mode" {
+			if v, ok := args[i+1].(string); ok {
+				l.onMode(v)
+			}
+		}
+	}
 }
 
 func workDir() string {
@@ -41,7 +111,7 @@ func workDir() string {
 	return os.TempDir()
 }
 
-func newManager(sc *script) (*block.Manager, func(), error) {
+func newManager(sc *script, logger logging.EventLogger) (*block.Manager, func(), error) {
 	priv, pub, err := crypto.GenerateEd25519Key(nil)
 	if err != nil {
 		return nil, nil, err
@@ -64,7 +134,7 @@ func newManager(sc *script) (*block.Manager, func(), error) {
 	cf.Node.LazyBlockInterval.Duration = time.Duration(sc.I) * time.Millisecond
 	cf.DA.BlockTime.Duration = time.Second
 	m, err := block.NewManager(context.Background(), sg, cf, gen, storepkg.New(hx.NewLogDS(nil)), &hx.Exec{}, &hx.Seq{}, hx.NewDA(),
-		logging.Logger("verif"), nil, nil, &hx.Bcast[*types.SignedHeader]{}, &hx.Bcast[*types.Data]{}, block.NopMetrics(), -1, 0, block.DefaultManagerOptions())
+		logger, nil, nil, &hx.Bcast[*types.SignedHeader]{}, &hx.Bcast[*types.Data]{}, block.NopMetrics(), -1, 0, block.DefaultManagerOptions())
 	if err != nil {
 		cleanup()
 		return nil, nil, err
@@ -88,10 +158,19 @@ func sleepUntil(ctx context.Context, t time.Time) bool {
 }
 
 // runReal drives the real AggregationLoop of a real Manager with the production function replaced
-// by a recorder that sleeps for the scripted duration and calls NotifyNewTransactions at the
-// scripted offsets (inside the production when the offset is shorter than its duration).
+// by a recorder that sleeps for the scripted duration.  NotifyNewTransactions is called — as the
+// reaper does — from other goroutines at the scripted instants (also during a production); probes
+// are recorded the same way.  The run ends when `upto` events have happened, at the latest after
+// `span` ms.
 func runReal(sc *script) (ms measurement, err error) {
-	m, cleanup, err := newManager(sc)
+	var mu sync.Mutex
+	lg := &capLogger{EventLogger: logging.Logger("verif")}
+	lg.onMode = func(mode string) {
+		mu.Lock()
+		ms.causes = append(ms.causes, mode)
+		mu.Unlock()
+	}
+	m, cleanup, err := newManager(sc, lg)
 	if err != nil {
 		return ms, err
 	}
@@ -99,16 +178,41 @@ func runReal(sc *script) (ms measurement, err error) {
 	ctx, cancel := context.WithCancel(context.Background())
 	defer cancel()
 
-	var mu sync.Mutex
 	var wg sync.WaitGroup
 	var t0 time.Time
 	since := func(t time.Time) float64 { return float64(t.Sub(t0).Microseconds()) / 1000 }
-	notify := func() {
-		at := time.Now()
-		m.NotifyNewTransactions()
+	reached := make(chan struct{})
+	// push: call with mu held
+	push := func(t tokRec) {
+		ms.toks = append(ms.toks, t)
+		if len(ms.toks) == sc.upto {
+			close(reached)
+		}
+	}
+	lateBy := func(target time.Time) {
+		if l := float64(time.Since(target).Microseconds()) / 1000; l > ms.late {
+			ms.late = l
+		}
+	}
+	event := func(target time.Time, notif bool, k, j int) {
+		defer wg.Done()
+		if !sleepUntil(ctx, target) {
+			return
+		}
 		mu.Lock()
-		ms.notifs = append(ms.notifs, notifRec{at: since(at)})
-		mu.Unlock()
+		defer mu.Unlock()
+		if ctx.Err() != nil {
+			return
+		}
+		at := since(time.Now())
+		lateBy(target)
+		if notif {
+			push(tokRec{kind: 'n', k: k, j: j, at: at})
+			m.NotifyNewTransactions()
+			ms.notifs = append(ms.notifs, notifRec{at: at, k: k, j: j})
+		} else {
+			push(tokRec{kind: 'p', k: k, j: j, at: at})
+		}
 	}
 	m.VerifSetPublishBlock(func(pctx context.Context) error {
 		start := time.Now()
@@ -116,31 +220,26 @@ func runReal(sc *script) (ms measurement, err error) {
 		k := len(ms.starts)
 		ms.starts = append(ms.starts, since(start))
 		ms.ends = append(ms.ends, -1)
+		push(tokRec{kind: 'P', k: k, at: since(start)})
 		mu.Unlock()
-		d := sc.durOf(k)
-		for _, o := range sc.offsOf(k) {
-			at := start.Add(time.Duration(o) * time.Millisecond)
-			if o < d {
-				if !sleepUntil(pctx, at) {
-					return nil
-				}
-				notify()
-			} else {
-				wg.Add(1)
-				go func() {
-					defer wg.Done()
-					if sleepUntil(ctx, at) {
-						notify()
-					}
-				}()
-			}
+		for j, o := range sc.offsOf(k) {
+			wg.Add(1)
+			go event(start.Add(time.Duration(o)*time.Millisecond), true, k, j)
 		}
-		if !sleepUntil(pctx, start.Add(time.Duration(d)*time.Millisecond)) {
+		for j, o := range sc.probesOf(k) {
+			wg.Add(1)
+			go event(start.Add(time.Duration(o)*time.Millisecond), false, k, j)
+		}
+		target := start.Add(time.Duration(sc.durOf(k)) * time.Millisecond)
+		if !sleepUntil(pctx, target) {
 			return nil
 		}
-		end := time.Now()
 		mu.Lock()
-		ms.ends[k] = since(end)
+		if pctx.Err() == nil {
+			ms.ends[k] = since(time.Now())
+			lateBy(target)
+			push(tokRec{kind: 'e', k: k, at: ms.ends[k]})
+		}
 		mu.Unlock()
 		return nil
 	})
@@ -172,9 +271,16 @@ func runReal(sc *script) (ms measurement, err error) {
 		}()
 		m.AggregationLoop(ctx, errCh)
 	}()
-	time.Sleep(time.Until(t0.Add(time.Duration(sc.span) * time.Millisecond)))
+	limit := time.NewTimer(time.Until(t0.Add(time.Duration(sc.span) * time.Millisecond)))
+	select {
+	case <-reached:
+	case <-limit.C:
+	}
+	limit.Stop()
+	mu.Lock() // no event is recorded after the cancellation
 	stop := time.Now()
 	cancel()
+	mu.Unlock()
 	select {
 	case <-done:
 		ms.exited = true
@@ -182,7 +288,6 @@ func runReal(sc *script) (ms measurement, err error) {
 	}
 	wg.Wait()
 	<-canaryDone
-	ms.noise = noise
 	select {
 	case e := <-errCh:
 		ms.loopErr = e.Error()
@@ -190,9 +295,11 @@ func runReal(sc *script) (ms measurement, err error) {
 	}
 	mu.Lock()
 	defer mu.Unlock()
+	ms.noise = noise
 	ms.stopMs = since(stop)
 	// copy under the lock (the loop goroutine may still be alive if it did not exit)
 	out := measurement{starts: append([]float64(nil), ms.starts...), ends: append([]float64(nil), ms.ends...),
-		notifs: append([]notifRec(nil), ms.notifs...), stopMs: ms.stopMs, noise: ms.noise, exited: ms.exited, panicked: ms.panicked, loopErr: ms.loopErr}
+		causes: append([]string(nil), ms.causes...), notifs: append([]notifRec(nil), ms.notifs...), toks: append([]tokRec(nil), ms.toks...),
+		late: ms.late, stopMs: ms.stopMs, noise: ms.noise, exited: ms.exited, panicked: ms.panicked, loopErr: ms.loopErr}
 	return out, nil
 }
